@@ -221,6 +221,18 @@ static void load_data(void)
     g_data = (uint8_t*) malloc(l + 1); g_data_len = fread(g_data, 1, l, fh); fclose(fh);
     return;
   }
+  const char* dr = get("datarep", NULL);    // <hexunit>*<count>
+  if (dr)
+  {
+    char tmp[256]; snprintf(tmp, sizeof tmp, "%s", dr);
+    char* star = strchr(tmp, '*'); long cnt = 1;
+    if (star) { *star = 0; cnt = strtol(star + 1, 0, 10); }
+    size_t ul; uint8_t* u = unhex(tmp, &ul);
+    g_data = (uint8_t*) malloc(ul * cnt + 1); g_data_len = ul * cnt;
+    for (long i = 0; i < cnt; i++) memcpy(g_data + i * ul, u, ul);
+    free(u);
+    return;
+  }
   const char* dh = get("data", NULL);
   if (dh) { size_t l; g_data = unhex(dh, &l); g_data_len = l; return; }
   const char* t = "xx abcdefgh yy hello world 0123456789 zz abcdefgh hello";
